@@ -300,7 +300,7 @@ func Solve(frs []*FuncResult, dir string, timeoutS int, keepDir string) {
 	var wg3 sync.WaitGroup
 	for _, fr := range frs {
 		for _, o := range fr.Obls {
-			if o.Verdict == "proved" || o.Verdict == "refuted" {
+			if o.Verdict == "proved" || o.Verdict == "refuted" || o.NoRetry {
 				continue
 			}
 			wg3.Add(1)
